@@ -158,10 +158,32 @@ func controlsFrame(cp *Prog, r *Report) {
 	}, "tab.delimsBad", "tab.delimsOrnateBad")
 }
 
+// exitsLoop: the comparison is the condition of a test inside a loop, one branch of which leaves the loop: the scan of the
+// text stops at that rune (a comparison outside any loop decides something about one rune, it does not cut the text).
+func exitsLoop(f *ssa.Function, cond ssa.Value) bool {
+	for _, b := range f.Blocks {
+		iff := ifOf(b)
+		if iff == nil || iff.Cond != cond {
+			continue
+		}
+		for _, l := range naturalLoops(f) {
+			if !l.blocks[b] {
+				continue
+			}
+			for _, succ := range b.Succs {
+				if !l.blocks[succ] {
+					return true
+				}
+			}
+		}
+	}
+	return false
+}
+
 // ruleBidiParagraphs — R-BIDI/par: bidi.Paragraph.SetString / SetBytes stop at the first paragraph separator (class B) and
 // return the number of bytes they consumed. A caller that ignores that count processes one paragraph only, unless it cuts the
 // text at the separators itself: the function calling SetString, or one of its callers in the module, compares the bidi
-// class of a rune with bidi.B.
+// class of a rune with bidi.B in a loop that the comparison leaves.
 func ruleBidiParagraphs(p *Prog, r *Report, floor int) {
 	const rule = "R-BIDI/par"
 	isSet := func(sc *ssa.Function) bool {
@@ -188,7 +210,7 @@ func ruleBidiParagraphs(p *Prog, r *Report, floor int) {
 						continue
 					}
 					if call, ok := pair[0].(*ssa.Call); ok {
-						if sc := call.Common().StaticCallee(); sc != nil && sc.String() == "(golang.org/x/text/unicode/bidi.Properties).Class" {
+						if sc := call.Common().StaticCallee(); sc != nil && sc.String() == "(golang.org/x/text/unicode/bidi.Properties).Class" && exitsLoop(f, bo) {
 							return true
 						}
 					}
